@@ -62,6 +62,8 @@ def custom_vocab(rng, unknown_ok=None, n_macros=12, n_envs=5, full_cover_index=N
     macros['\\'] = D.M(['*', '[nospace'])
     macros['&'] = D.M('')
     macros['%'] = D.M('')
+    macros['$'] = D.M('')       # escaped dollar: a macro token whose name is a math delimiter character
+    macros['#'] = D.M('')
     specials = ['~', '--', '---', '&']
     par = rng.random() < 0.8
 
